@@ -192,7 +192,7 @@ Proof.
     + pose proof (le_write_scalar m k (k_c k) s) as H.
       destruct (write_scalar m k (k_c k) s) as [nv s1]. exact H.
   - destruct (nmem i (f_daxes f)); [|apply le_refl].
-    destruct (if match spanning f i with [] => false | _ => true end then _ else None);
+    destruct (pick_dim m f i ax x s);
       [simpl; apply le_refl|].
     with_name. simpl. eapply le_trans; [exact Hn|].
     eapply le_trans; [|apply le_create_dim]. le_same.
@@ -910,7 +910,7 @@ Proof.
     + pose proof (sm_write_scalar k (k_c k) s) as H.
       destruct (write_scalar m k (k_c k) s) as [nv s1]. exact H.
   - destruct (nmem i (f_daxes f)); [|apply sm_refl].
-    destruct (if match spanning f i with [] => false | _ => true end then _ else None);
+    destruct (pick_dim m f i ax x s);
       [simpl; apply sm_refl|].
     with_name_sm. simpl. eapply sm_trans; [exact Hn|].
     eapply sm_trans; [|apply sm_create_dim]. sm_same.
@@ -1304,7 +1304,7 @@ Proof.
       destruct (write_scalar m k (k_c k) s) as [nv s1]. simpl in *. split; [exact A|].
       intros n Hn. apply in_app_or in Hn as [Hn | [<- | []]]; auto.
   - destruct (nmem i (f_daxes f)); [|simpl; auto].
-    destruct (if match spanning f i with [] => false | _ => true end then _ else None); [simpl; auto|].
+    destruct (pick_dim m f i ax x s); [simpl; auto|].
     inv_name H. simpl. split; [|exact Hx]. apply inv_create_dim, inv_upd_dimsz, Hi.
 Qed.
 
